@@ -69,6 +69,17 @@ class _G1:
             for t in tg:
                 if not self.clean(t):
                     inherits.append(t)
+            # the callee's length check speaks about the length it is *given*: a delegation that passes the input's storage
+            # must pass the input's own length with it (or have related the two itself)
+            dargs = dn.call_args()
+            ptr_in = [a for a in dargs if a.strip().tc == "ptr" and INPUT in (ctx.objs(a) | ctx.base_objs(a))]
+            int_args = [a for a in dargs if a.strip().tc == "int"]
+            if ptr_in and int_args and not any(INPUT in ctx.objs(a, ("size", "val")) for a in int_args) \
+                    and ctx.relating_guard_at(dn, INPUT, THIS) is None:
+                own.append((dn.line, dn.text(), "hands the caller's storage (%s) to %s with a length that does not come from the "
+                            "input (%s): the length check over there compares the plan's length with itself, and the input's real "
+                            "length is never looked at" % (ptr_in[0].text(), _short_name(dn.callee.get("qn")),
+                                                           ", ".join(a.text() for a in int_args))))
 
         # pass 2: element accesses that mix the input with plan state
         for (node, base, idx) in ctx.subscripts():
@@ -362,13 +373,39 @@ def rule_G2(prog, fixture=False, only_compound=False):
     return res
 
 
-def _callers_guard(prog, f, bad):
-    """internal function: the relating guard may sit in every caller (depth 1); anything deeper is unmodelled"""
+def _own_param_name(arg, caller):
+    """name of the caller's own (never re-assigned) parameter that is passed as it is, else None"""
+    a = arg.strip_all()
+    while a.k in ("CXXConstructExpr", "MaterializeTemporaryExpr") and len(a.c) == 1:
+        a = a.c[0].strip_all()
+    if not (a.k == "DeclRefExpr" and a.decl and a.decl.get("k") == "parm") or a.is_lambda_parm():
+        return None
+    pid = a.decl.get("id")
+    for x in caller.walk():
+        if x.k in ("BinaryOperator", "CompoundAssignOperator", "CXXOperatorCallExpr") and x.op and x.op.endswith("=") \
+                and x.op not in ("==", "!=", "<=", ">=") and x.c:
+            l = (x.c[1] if x.k == "CXXOperatorCallExpr" and len(x.c) > 1 else x.c[0]).strip_all()
+            if l.k == "DeclRefExpr" and l.decl and l.decl.get("id") == pid:
+                return None
+    return a.decl.get("n")
+
+
+def _callers_guard(prog, f, bad, depth=0, trail=None):
+    """internal function: the relating guard may sit in every caller.  A caller without one that passes two of its *own*
+    parameters straight through is looked at in the same way (depth 3); when such a chain ends in a public function the two
+    operands are two independent arguments of the caller's caller and nothing on the way relates their sizes: violated.
+    Everything else (object state, computed arguments) is unmodelled."""
+    trail = trail or []
     callers = prog.callers_of(f.usr)
     if not callers:
         return UNMODELLED, "no caller found in the analysed program"
     pidx = {p["n"]: i for i, p in enumerate(f.params)}
+    guarded_in = []
+    open_public = []
+    unmodelled = []
     for (caller, call) in callers:
+        if caller.file.endswith("coverage.cc"):
+            continue
         cn = caller.nodes.get(call["node"])
         if cn is None:
             return UNMODELLED, "call site in %s not located" % caller.short
@@ -391,9 +428,34 @@ def _callers_guard(prog, f, bad):
                                 found = True
                     if oa and oa == ob and len(oa) == 1:
                         found = True     # the same object is passed for both operands
-                    if not found:
-                        return UNMODELLED, "caller %s has no live guard relating the arguments (deeper call chains are not modelled)" % caller.short
-    return DISCHARGED, "live guard relating the arguments in every caller (%s)" % ", ".join(sorted({c.short for (c, _) in callers}))
+                    if found:
+                        guarded_in.append(caller.short)
+                        continue
+                    na, nb = _own_param_name(args[ia], caller), _own_param_name(args[ib], caller)
+                    if kind != "foreign-bound" or na is None or nb is None or na == nb or depth >= 3 or caller.usr in [t.usr for t in trail]:
+                        unmodelled.append("caller %s has no live guard relating the arguments (deeper call chains are not modelled)" % caller.short)
+                        continue
+                    step = "%s:%d %s" % (prog.rel(caller.file), cn.line, cn.text()[:90])
+                    if _is_public(prog, caller):
+                        open_public.append((caller, trail + [caller], step, na, nb))
+                        continue
+                    sub = [(cn, kind, False, why, {("parm", na)}, {("parm", nb)})]
+                    v, w = _callers_guard(prog, caller, sub, depth + 1, trail + [caller])
+                    if v == VIOLATED:
+                        return v, w
+                    if v != DISCHARGED:
+                        unmodelled.append(w)
+                        continue
+                    guarded_in.append(caller.short + " (its callers)")
+    if open_public:
+        caller, tr, step, na, nb = open_public[0]
+        return VIOLATED, "public %s passes its arguments '%s' and '%s' down unchecked (%s) and no function on the way relates their sizes" % (
+            caller.short, na, nb, " -> ".join(t.short for t in tr[::-1]) + " -> " + f.short)
+    if unmodelled:
+        return UNMODELLED, unmodelled[0]
+    if not guarded_in:
+        return UNMODELLED, "no caller found in the analysed program"
+    return DISCHARGED, "live guard relating the arguments in every caller (%s)" % ", ".join(sorted(set(guarded_in)))
 
 
 def _index_loaded_from(ctx, idx, cobjs, depth=0):
